@@ -142,6 +142,10 @@ def gen_persist(r, ncases, maxlen=60):
     for k in range(3 if ncases < 100 else 20):
         ops += ["#case ps parallel", "ps.open", f"ps.parallel n={r.range(3, 8)} seed={r.range(1, 99)} procs={r.pick([1, 1, 0])} hold_ms={r.range(10, 60)}",
                 f"ps.parallel n={r.range(3, 8)} seed={r.range(1, 99)} procs={r.pick([1, 0])} hold_ms={r.range(10, 60)}"]
+    # the deletion of the database's only entry and a save, both waiting for the database file (seed C14i: the deleter
+    # removed the emptied file under the waiting save)
+    for k in range(2 if ncases < 100 else 10):
+        ops += ["#case ps delsave", "ps.open", f"ps.delsave trials={r.pick([6, 10])} seed={r.range(1, 99)} hold_ms={r.pick([15, 25, 40])}"]
     busy_left = 4 if ncases < 100 else 40   # each costs its hold time
     for _ in range(ncases):
         ops.append("#case ps")
